@@ -102,6 +102,57 @@ fn wrote_anything(run: &crate::kio::Run) -> bool {
     !run.out.is_empty() || run.log.events().iter().any(|e| e.op == Op::Write && matches!(e.res, Res::N(n) if n > 0))
 }
 
+/// The password file's 36-byte header over a FAMILY of read schedules through the public entry point: every constant
+/// read size 1..=48, "first n then everything" and "n, 1, then 4096" for every n up to 48, and a few mixed lists.
+/// The right password must open the file to exactly the plaintext under every schedule; another password must be
+/// refused with nothing written under a sample of them.
+fn header_read_schedules(ctx: &Ctx) {
+    let mut scheds: Vec<Sched> = Vec::new();
+    for k in 1..=48usize {
+        scheds.push(Sched::fixed(k));
+        scheds.push(Sched::list(vec![k], 1 << 20));
+        scheds.push(Sched::list(vec![k, 1], 4096));
+    }
+    for l in [vec![4usize, 32, 1], vec![4, 31, 2], vec![2, 2, 31, 2], vec![35, 1, 16], vec![3, 33, 15, 1], vec![36, 1], vec![36, 16, 1], vec![20, 20, 20], vec![5, 7, 11, 13, 17]] {
+        scheds.push(Sched::list(l, 65536));
+    }
+    let mut rng = Rng::fork(ctx.seed, "C02-header-scheds");
+    let pw = "p\u{e4}ssw\u{f6}rd \u{1f511}".as_bytes().to_vec();
+    let other = b"another password".to_vec();
+    let lens = [0usize, 1, 1000];
+    let files: Vec<(Vec<u8>, Vec<u8>)> = lens.iter().map(|l| {
+        let pt = rng.bytes(*l);
+        let salt = rng.arr32();
+        (refspec::encode_pass_file(&pw, &salt, &pt, &refspec::natural_chunking(pt.len(), 65536)), pt)
+    }).collect();
+    ctx.note("header_read_schedules", json!({"schedules": scheds.len(), "plaintext_lengths": lens, "files_from": "the reference encoder"}));
+    par_for(scheds.len() * files.len(), crate::util::ncpu(), |i| {
+        let (si, fi) = (i / files.len(), i % files.len());
+        let (f, pt) = &files[fi];
+        let io = Io::new(scheds[si].clone(), Sched::all());
+        let case = |p: &[u8]| json!({"password": hex(p), "file": hex_short(f, 64), "file_len": f.len(), "plaintext_len": pt.len(), "read_schedule": scheds[si].describe()});
+        let d = pass_decrypt_run(f, &io, &pw);
+        ctx.eval();
+        if !(d.outcome.is_ok() && &d.out == pt) {
+            ctx.violation(&format!("C02:header-schedule:right-password-refused-or-wrong-bytes:{}", sig_class(&d.outcome)), case(&pw));
+            return;
+        }
+        ctx.seen("header read schedule: right password opens the file");
+        ctx.distinct(&format!("hdrsched|{}|{}", si, fi));
+        if si % 5 == 0 {
+            let w = pass_decrypt_run(f, &io, &other);
+            ctx.eval();
+            if w.outcome.is_ok() || !w.out.is_empty() {
+                ctx.violation("C02:header-schedule:different-password-accepted-or-output-written", case(&other));
+            } else {
+                ctx.seen("header read schedule: another password refused, nothing written");
+            }
+        }
+    });
+    ctx.require("header read schedule: right password opens the file", 100);
+    ctx.require("header read schedule: another password refused, nothing written", 20);
+}
+
 pub fn run(ctx: &Ctx) {
     ctx.rule(
         "small scope: as C01 with AAD = password magic (exhaustive read partitions through the hooked chunk loops); full pass_encrypt/pass_decrypt \
@@ -117,6 +168,7 @@ pub fn run(ctx: &Ctx) {
     small_scope_block(ctx, "C02", &PASS_MAGIC, max_len, 4);
     ctx.note("small_scope", json!({"max_len": max_len, "max_chunk_size": 4, "aad": "65676b20", "exhaustive": true}));
     counter_crossing(ctx, "C02", &PASS_MAGIC, ctx.tier.pick(66_000, 140_000));
+    header_read_schedules(ctx);
 
     // ---- full API round trips ----
     let mut prng = Rng::fork(ctx.seed, "C02-pool");
